@@ -20,14 +20,17 @@ def jobs(tier):
     for (n, k) in [(3, 2), (4, 2), (2, 3), (3, 1)]:
         for o in DPOBJ:
             J.append(job('C02', 'dp', n, k, obj=o, checks=ck))
-    for o in (DPOBJ if T else ('diff', 'klargest:2', 'ksmallest:2')):
+    for o in (DPOBJ if T else ('diff',)):
         J.append(job('C02', 'dp', 4, 3, obj=o, checks=ck))
+    if not T:
+        for o in ('klargest:2', 'ksmallest:2'):
+            J.append(job('C02', 'dp', 4, 3, obj=o, order='desc', checks=ck))
     for (n, k) in [(3, 2), (4, 2), (3, 4), (3, 1)]:
         for o in OBJ3:
             for mask in range(16):
                 J.append(job('C02', 'cg', n, k, obj=o, cg_mask=mask, checks=ck))
     for o in OBJ3:
-        for mask in (range(16) if T else (0, 1, 2, 4, 8, 11, 15)):
+        for mask in (range(16) if T else ((0, 1, 2, 4, 8, 11, 15) if o == 'diff' else (0, 11, 15))):
             J.append(job('C02', 'cg', 4, 3, obj=o, cg_mask=mask, checks=ck))
     # (5,k) non-increasing: (5,2) contains LPT's tight instance, i.e. the first leaf of complete greedy is not optimal there
     for o in OBJ3:
@@ -52,6 +55,14 @@ def jobs(tier):
         J.append(tierb('C02', 'rnp', W, 3, [h], obj='diff', checks=ck)); J.append(tierb('C02', 'snp', W, 3, [h], obj='diff', checks=ck))
     J.append(tierb('C02', 'ckk', W, 3, [2], obj='diff', checks=ck)); J.append(tierb('C02', 'cg', W, 3, [3], obj='diff', cg_mask=11, checks=ck))
     J.append(tierb('C02', 'rnp', VEC['snp-test-8'], 4, [2], obj='diff', checks=ck))
+    # tier C with the oracle: two distinct symbolic values (three-value patterns are run oracle-free in C18)
+    for alg in EXACT_DIFF + ('cg',):
+        kw = dict(cg_mask=11) if alg == 'cg' else {}
+        for (n, k, g) in ((6, 3, [3, 3]), (7, 4, [4, 3]), (7, 4, [3, 4]), (6, 4, [2, 4])):
+            if alg == 'ckk' and k > 3: continue
+            J.append(job('C02', alg, n, k, obj='diff', order='asc', groups=g, checks=ck, **kw))
+    for o in ('max', 'min'):
+        J.append(job('C02', 'cg', 6, 3, obj=o, cg_mask=15, order='asc', groups=[3, 3], checks=ck)); J.append(job('C02', 'dp', 6, 3, obj=o, order='asc', groups=[3, 3], checks=ck))
     if T:
         for h in range(7):
             J.append(tierb('C02', 'rnp', W, 3, [h], obj='diff', checks=ck)); J.append(tierb('C02', 'rnp', W, 5, [h], obj='diff', checks=ck))
